@@ -715,6 +715,9 @@ def tasks(tier):
     return [('contracts.c11', 'task_process_map', {}), ('contracts.c11', 'task_slots', dict(which='_compute')),
             ('contracts.c11', 'task_slots', dict(which='_bcompute')), ('contracts.c11', 'task_slots', dict(which='jvec')),
             ('contracts.c11', 'task_solve_wrapper', {}), ('contracts.c11', 'task_solve_wrapper_files', {}), ('contracts.c11', 'task_file_hand_over', {}),
+            # a worker's result depends only on its task: what the worker derives from the task's model is derived from the model as it is NOW,
+            # whether the model object is the simulation's own (sequential, in memory), a pickled copy (processes) or loaded from a task file
+            ('contracts.c15', 'task_interpolate_to_grid', dict(prop=PROP)),
             ('contracts.c11', 'task_concrete', {})]
 
 
